@@ -39,7 +39,8 @@ RULE = ('Three generated parts. gate: auth configured as a non-empty dict of '
         '_send_ping of an application client on the virtual-time loop while '
         'another connection creates / empties a namespace after 0-6 loop '
         'iterations: the PING must be sent as without instrumentation.'
-        ' The gate part can instrument another server of the same process first, with credentials of its own, which are then presented to the judged server.')
+        ' The gate part can instrument another server of the same process first, with credentials of its own, which are then presented to the judged server.'
+        ' A fifth part (asyncio) starts two or three application calls back to back as tasks (emit to a room / broadcast, then an emit, a join or a leave) on a plain server and on an instrumented one with an admin connected: the application clients must receive the same packets in the same order.')
 ASSUMPTIONS = [
     'configured credentials are string-valued; empty dict/list credentials '
     'are outside the domain; a payload that makes the predicate raise does '
@@ -156,7 +157,19 @@ def strategy(tier):
         'meanwhile': st.sampled_from(['new_namespace', 'last_leaves',
                                       'none']),
         'after_steps': st.integers(0, 6)})
-    return st.one_of(gate, ro, tr, tr, hb)
+    # asyncio: two application operations started back to back (two tasks),
+    # with an admin watching: the application clients receive what they
+    # receive from the same two tasks on a plain server
+    cc = st.fixed_dictionaries({
+        'part': st.just('concurrent'),
+        'mode': st.sampled_from(['development', 'development',
+                                 'production']),
+        'members': st.integers(1, 3),
+        'first': st.sampled_from(['room', 'broadcast']),
+        'second': st.sampled_from(['to_member', 'join', 'to_outsider',
+                                   'leave']),
+        'third': st.booleans()})
+    return st.one_of(gate, ro, tr, tr, hb, cc)
 
 
 class _SocketPatchGuard:
@@ -186,6 +199,8 @@ def check_case(case):
             return _readonly(case)
         if case['part'] == 'heartbeat':
             return _heartbeat(case)
+        if case['part'] == 'concurrent':
+            return _concurrent(case)
         return _transparency(case)
 
 
@@ -267,6 +282,72 @@ def _app_server(aio, **kw):
         w.sio.on('a', lambda sid, *a: log.append(('a', sid, a)),
                  namespace=ns)
     return w, log
+
+
+def _concurrent_run(case, instrumented):
+    w, log = _app_server(True)
+    try:
+        if instrumented:
+            w.sio.instrument(auth=False, mode=case['mode'])
+            ta = w.open()
+            if w.connect(ta, '/admin')[0] is None:
+                raise Violation('admin-refused-with-auth-disabled', '')
+        sio = w.sio
+        cl = []
+        for i in range(4):
+            t = w.open()
+            ci, _ = w.connect(t, '/')
+            cl.append(w.clients[ci])
+        for c in cl[:case['members']]:
+            w.do(sio.enter_room(c['sid'], 'lobby', namespace='/'))
+        outsider = cl[3]
+        w.h.settle()
+        w.recv_all()
+        loop = w.h.loop
+        tasks = [loop.spawn(sio.emit(
+            'first', 1, namespace='/',
+            room='lobby' if case['first'] == 'room' else None))]
+        if case['second'] == 'to_member':
+            tasks.append(loop.spawn(sio.emit('second', 2, namespace='/',
+                                             to=cl[0]['sid'])))
+        elif case['second'] == 'to_outsider':
+            tasks.append(loop.spawn(sio.emit('second', 2, namespace='/',
+                                             to=outsider['sid'])))
+        elif case['second'] == 'join':
+            tasks.append(loop.spawn(sio.enter_room(outsider['sid'], 'lobby',
+                                                   namespace='/')))
+        else:
+            tasks.append(loop.spawn(sio.leave_room(cl[0]['sid'], 'lobby',
+                                                   namespace='/')))
+        if case['third']:
+            tasks.append(loop.spawn(sio.emit('third', 3, namespace='/')))
+        loop.run_until_idle()
+        for tk in tasks:
+            if not tk.done() or tk.exception() is not None:
+                raise Violation('application-call-failed', repr(tk))
+        out = []
+        for c in cl:
+            out.append([(p['type'], p['nsp'], p['data'])
+                        for p in w.recv(c['t'])])
+        return out
+    finally:
+        w.close()
+
+
+def _concurrent(case):
+    plain = _concurrent_run(case, False)
+    inst = _concurrent_run(case, True)
+    if plain != inst:
+        raise Violation('transparency-concurrent',
+                        'two application calls started back to back (%s, '
+                        'then %s%s; %d lobby members): the application '
+                        'clients received %r on the plain server and %r on '
+                        'the instrumented one with an admin connected'
+                        % (case['first'], case['second'],
+                           ', then a broadcast' if case['third'] else '',
+                           case['members'], plain, inst))
+    return {'part': 'concurrent', 'aio': True, 'mode': case['mode'],
+            'nontrivial': True, 'concurrent_' + case['second']: True}
 
 
 def _heartbeat(case):
